@@ -223,3 +223,43 @@ def spec(dem, params, regname=lambda p: p.region.name if p.region is not None el
     desc = '%s%s W=%d a:(dim %d%s) b:(dim %d%s)%s' % (op, sh, W, dA, ' const' if cA else '', dB, ' const' if cB else '',
                                                        ' [' + exception + ']' if exception else '')
     return writes, reads, subst, desc
+
+
+def inplace_hyps(dem, params):
+    """in-place hypotheses the signature permits: the output aliased with an operand of *identical* shape (extension,
+    not a broadcast constant, same access kind as the output, no stride / index parameter anywhere), and the two operands
+    aliased with each other under the same condition.  `x = x op y` on register triples or unit-stride arrays is how
+    callers accumulate; cross-shape aliasing (a base-field array or a broadcast constant over the output) has no defined
+    meaning and is not hypothesised."""
+    m = re.match(PAT, dem)
+    if not m:
+        return []
+    op, sh, be = m.groups()
+    if sh not in SHAPES:
+        return []
+    dA, cA, dB, cB = SHAPES[sh]
+    ps = [p for p in params if not p.is_this]
+    T = {p.name: p for p in ps}
+    try:
+        K = {p.name: kind_of(p) for p in ps}
+    except NoSpec:
+        return []
+    if any(k in ('stride', 'index') for k in K.values()):
+        return []
+    if [p.name for p in ps] == ['result', 'a', 'b', 'b_']:
+        return []                                   # the frozen exception of spec(): b is a constant with precomputed sums
+    out = T.get('result') or T.get('c_')
+    if out is None or K[out.name] not in ('arr', 'planar'):
+        return []
+    elig = []
+    for x, d, c in (('a', dA, cA), ('b', dB, cB)):
+        if d != 3 or c:
+            continue
+        cands = [n for n in (x, x + '_') if n in T]
+        if len(cands) == 1 and K[cands[0]] == K[out.name]:
+            elig.append(cands[0])
+    hs = [{n: out.name} for n in elig]
+    if len(elig) == 2:
+        hs.append({elig[1]: elig[0]})
+        hs.append({elig[0]: out.name, elig[1]: out.name})
+    return hs
